@@ -669,6 +669,10 @@ func NewOneOfStructure(elems []specification.Ref[specification.Schema], d specif
 		}
 		imports = append(imports, ims...)
 		// (asked of the specification: the generator's own view of a component built later is still a placeholder)
+		if v := e.Value(); v.Type == "string" && v.Format == "date-time" && !schema.IsCustom() {
+			return zero, nil, fmt.Errorf("oneOf: %d-th element: a date-time cannot be a variant of oneOf", i)
+		}
+		// (asked of the specification: the generator's own view of a component built later is still a placeholder)
 		if schema.Ref != nil && e.Value().Nullable {
 			return zero, nil, fmt.Errorf("oneOf: %d-th element: %q is nullable: a nullable schema cannot be a variant of oneOf", i, schema.Ref.Name)
 		}
